@@ -120,10 +120,21 @@ def AFTOperation_ADD : Nat := 1
 def AFTOperation_REPLACE : Nat := 2
 def AFTOperation_DELETE : Nat := 3
 
+/-- the `network_instance` oneof of `spb.FlushRequest` -/
+inductive FlushNI where
+  | All
+  | Name (Name : String)
+  deriving DecidableEq, Repr, Inhabited
+
+/-- `spb.FlushResponse_Result` -/
+inductive FlushResult where
+  | UNSET | OK | NON_ZERO_REFERENCE_REMAIN
+  deriving DecidableEq, Repr, Inhabited
+
 /-- `spb.FlushRequest`: the two oneofs as seen through the getters -/
 structure FlushRequest where
-  /-- `GetNetworkInstance()`: nil or some oneof wrapper -/
-  NetworkInstance : Option Unit
+  /-- `GetNetworkInstance()`: nil or the oneof case -/
+  NetworkInstance : Option FlushNI
   /-- `GetOverride()` -/
   Override : Option Unit
   /-- `GetId()` -/
@@ -171,6 +182,7 @@ inductive Eff where
   | runElection (id : String) (e : Option U128)
   | doModify (id : String)
   | send (r : Option MResp)
+  | flush (nis : List String)
   | addEntry (ni : String) (op : Option AFTOperation)
   | deleteEntry (ni : String) (op : Option AFTOperation)
   deriving DecidableEq, Repr, Inhabited
